@@ -5,7 +5,7 @@ from ..model import AnalysisError, norm
 from ..cfg import build_cfg
 from ..astutil import short, call_name
 from ..report import fkey
-from ..rules import edges, guards, intcmp
+from ..rules import edges, guards, intcmp, persist
 from ..rules.common import *
 
 EXPLANATION = (
@@ -202,6 +202,8 @@ def check(ctx):
     feasible_shape(ctx)
     handlers(ctx)
     removal_shape(ctx)
+    # graph algorithms memoise in caller-provided cache dicts: keys must cover what the value depends on
+    persist.check_memo_functions(ctx, [f for f in ctx.prog.all_functions() if f.module.name.startswith('adsg_core.graph.')])
     edges.check_walks(ctx, categories={'incompat-scan', 'derivation', 'default'},
                       anchors=[f'{INCOMP}:get_confirmed_incompatibility_edges',
                                f'{INCOMP}:get_mod_nodes_remove_incompatibilities',
